@@ -23,7 +23,7 @@ type World struct {
 }
 
 func loadWorld(repo string) (*World, error) {
-	os.MkdirAll("/verif/out", 0o755)
+	os.MkdirAll(outRoot, 0o755)
 	prog, err := LoadProgram(repo)
 	if err != nil {
 		return nil, err
@@ -200,7 +200,7 @@ func cmdVerify(args []string) {
 	}
 	prelude := w.smt.Prelude()
 	altWorld = w
-	solveAll(all, prelude, "/verif/out/smt", *timeout, 0, 16, false)
+	solveAll(all, prelude, outRoot+"/smt", *timeout, 0, 16, false)
 	nOK, nBad := 0, 0
 	for _, r := range w.res {
 		fmt.Printf("== %s  (%d obligations) inlined=%v tags=%v\n", r.Inst, len(r.VCs), r.Inlined, r.Tags)
@@ -224,7 +224,7 @@ func cmdVerify(args []string) {
 				}
 				fmt.Printf("   %s %-70s %-8s %-7s %.2fs %s\n", mark, vc.Name, vc.Status, vc.Solver, vc.TimeS, vc.Pos)
 				if !ok && *dumpFailed {
-					fmt.Println("        ", vcFileName("/verif/out/smt", vc))
+					fmt.Println("        ", vcFileName(outRoot+"/smt", vc))
 				}
 			}
 		}
@@ -286,7 +286,7 @@ func cmdSweep(args []string) {
 	}
 	_ = all
 	// one batched query per function: all safety obligations at once
-	os.MkdirAll("/verif/out/sweep", 0o755)
+	os.MkdirAll(outRoot+"/sweep", 0o755)
 	type job struct {
 		it  *item
 		ok  bool
@@ -337,7 +337,7 @@ func cmdSweep(args []string) {
 				smtMu.RLock()
 				text := fv.smt.PreludeFor(body.String()) + body.String()
 				smtMu.RUnlock()
-				file := fmt.Sprintf("/verif/out/sweep/%s_%d.smt2", sanitizeFile(j.it.key), ri)
+				file := fmt.Sprintf(outRoot+"/sweep/%s_%d.smt2", sanitizeFile(j.it.key), ri)
 				os.WriteFile(file, []byte(text), 0o644)
 				res := runSolver(context.Background(), solvers[0], file, 10, 0)
 				if res.status != "unsat" {
@@ -394,7 +394,7 @@ func cmdReplay(args []string) {
 	}
 	name := "VerifReplayAgain"
 	body = regexp.MustCompile(`VERIF-RESULT VerifReplay[0-9]+`).ReplaceAllString(body, "VERIF-RESULT "+name)
-	verd, out := runOverlayTests(w, []overlayTest{{Name: name, Body: body}}, "/verif/out/replay_again")
+	verd, out := runOverlayTests(w, []overlayTest{{Name: name, Body: body}}, outRoot+"/replay_again")
 	v := verd[name]
 	fmt.Printf("inputs: %v\nverdict on the current tree: %s\n", rec["replay_inputs"], v)
 	if v == "error" {
@@ -404,3 +404,11 @@ func cmdReplay(args []string) {
 		os.Exit(1)
 	}
 }
+
+// outRoot: scratch directory of a run (VERIF_OUT lets mutant scoring run beside a normal check)
+var outRoot = func() string {
+	if d := os.Getenv("VERIF_OUT"); d != "" {
+		return d
+	}
+	return "/verif/out"
+}()
